@@ -795,6 +795,9 @@ func (e *Engine) coerceTo(env *Env, v Val, s Sort) *Term {
 			}
 			return e.coerceTo(env, bt, s)
 		}
+		if s == "Obj" {
+			return e.seqObjCached(env.st, x)
+		}
 	}
 	unsupported("cannot use %s as %s", valString(v), s)
 	return nil
@@ -1047,6 +1050,27 @@ func (e *Engine) evalCall(env *Env, x *Expr) Val {
 		evalArgs()
 		o := term(0, SOpt).T
 		return mkBV(64, fmt.Sprintf("(ite (or ((_ is none) %s) (= (slen (val %s)) #x0000000000000000)) #x0000000000000000 (unbe64 (val %s)))", o, o, o), false)
+	case "contains", "hasprefix", "hassuffix":
+		evalArgs()
+		f := map[string]string{"contains": "str_contains", "hasprefix": "has_prefix", "hassuffix": "has_suffix"}[x.Name]
+		e.C.DeclareFun(f, []Sort{SStr, SStr}, SBool)
+		return mkBool(fmt.Sprintf("(%s %s %s)", f, term(0, SStr).T, term(1, SStr).T))
+	case "split":
+		evalArgs()
+		e.C.DeclareFun("str_split", []Sort{SStr, SStr}, "Obj")
+		return mk("Obj", fmt.Sprintf("(str_split %s %s)", term(0, SStr).T, term(1, SStr).T))
+	case "jsondec":
+		evalArgs()
+		e.C.DeclareFun("json_dec", []Sort{SStr}, "Obj")
+		return mk("Obj", "(json_dec "+term(0, SStr).T+")")
+	case "jsonenc":
+		evalArgs()
+		e.C.DeclareFun("json_enc", []Sort{"Obj"}, SStr)
+		return mk(SStr, "(json_enc "+term(0, "Obj").T+")")
+	case "rematch":
+		evalArgs()
+		e.C.DeclareFun("re_match", []Sort{SStr, SStr}, SBool)
+		return mkBool(fmt.Sprintf("(re_match %s %s)", term(0, SStr).T, term(1, SStr).T))
 	case "seqlen":
 		evalArgs()
 		return e.seqLen(env.st, term(0, "Obj"))
@@ -1172,6 +1196,45 @@ func (e *Engine) evalCall(env *Env, x *Expr) Val {
 			return mkBool(e.isaTerm(o, T))
 		}
 		return e.structView(env.st, o, T)
+	}
+	if x.Name == "bech32dec" || x.Name == "bech32" || x.Name == "validbech32" {
+		evalArgs()
+		e.C.DeclareFun("valid_bech32", []Sort{SStr}, SBool)
+		e.C.DeclareFun("bech32_dec", []Sort{SStr}, SStr)
+		e.C.DeclareFun("bech32_enc", []Sort{SStr}, SStr)
+		switch x.Name {
+		case "bech32dec":
+			return mk(SStr, "(bech32_dec "+term(0, SStr).T+")")
+		case "bech32":
+			return mk(SStr, "(bech32_enc "+term(0, SStr).T+")")
+		default:
+			return mkBool("(valid_bech32 " + term(0, SStr).T + ")")
+		}
+	}
+	if x.Name == "isErrorAck" || x.Name == "isResultAck" {
+		// the Response oneof of a packettypes.Acknowledgement value
+		evalArgs()
+		sv, ok := args[0].(*StructV)
+		if !ok {
+			unsupported("%s(%s)", x.Name, valString(args[0]))
+		}
+		want := map[string]string{"isErrorAck": "Acknowledgement_Error", "isResultAck": "Acknowledgement_Result"}[x.Name]
+		switch r := sv.F[0].(type) {
+		case *IfaceV:
+			if r.Dyn != nil && strings.HasSuffix(r.Dyn.String(), want) {
+				return tTrue
+			}
+			return tFalse
+		case *Term:
+			if r.S == "Obj" {
+				T, err := e.W.LookupType("", repoModule+"/modules/tibc/core/04-packet/types."+want)
+				if err != nil {
+					unsupported("%v", err)
+				}
+				return mkBool(e.isaTerm(r, T))
+			}
+		}
+		unsupported("%s on %s", x.Name, valString(sv.F[0]))
 	}
 	if x.Name == "dur" {
 		evalArgs()
